@@ -440,3 +440,100 @@ func (b *Byz) RawStream(mode int) {
 	}
 	s.Close()
 }
+
+// ByzListener accepts gateway connections (a node that *dials* the Byzantine peer, e.g.
+// syncer.RetrieveCheckpoint) and serves every one of them with the same handler.
+type ByzListener struct {
+	Net     *Net
+	L       net.Listener
+	Handler func(req *Request) Reply
+	mu      sync.Mutex
+	conns   []*Byz
+}
+
+// ListenByz starts a Byzantine peer that waits for connections on ip:0.
+func ListenByz(nt *Net, ip string, handler func(req *Request) Reply) (*ByzListener, error) {
+	l, err := net.Listen("tcp", ip+":0")
+	if err != nil {
+		return nil, err
+	}
+	bl := &ByzListener{Net: nt, L: l, Handler: handler}
+	go func() {
+		for {
+			conn, err := l.Accept()
+			if err != nil {
+				return
+			}
+			go func() {
+				b := &Byz{Net: nt, UID: gateway.GenerateUniqueID(), conn: conn, Handler: handler, closed: make(chan struct{}),
+					LocalAddr: conn.LocalAddr().String()}
+				conn.SetDeadline(time.Now().Add(10 * time.Second))
+				if err := b.acceptHandshake(l.Addr().String()); err != nil {
+					conn.Close()
+					return
+				}
+				conn.SetDeadline(time.Time{})
+				bl.mu.Lock()
+				bl.conns = append(bl.conns, b)
+				bl.mu.Unlock()
+				b.serve()
+			}()
+		}
+	}()
+	return bl, nil
+}
+
+func (bl *ByzListener) Addr() string { return bl.L.Addr().String() }
+
+func (bl *ByzListener) Close() {
+	bl.L.Close()
+	bl.mu.Lock()
+	defer bl.mu.Unlock()
+	for _, b := range bl.conns {
+		b.Close()
+	}
+}
+
+// acceptHandshake is gateway.Accept written out (transport.go:184-206).
+func (b *Byz) acceptHandshake(ourAddr string) error {
+	var peerVersion string
+	if err := readV1(b.conn, 128, func(d *types.Decoder) { peerVersion = d.ReadString() }); err != nil {
+		return err
+	} else if err := writeV1(b.conn, func(e *types.Encoder) { e.WriteString("2.0.0") }); err != nil {
+		return err
+	}
+	_ = peerVersion
+	// readHeader
+	var gid types.BlockID
+	var uid gateway.UniqueID
+	var addr string
+	if err := readV1(b.conn, 32+8+128, func(d *types.Decoder) { gid.DecodeFrom(d); d.Read(uid[:]); addr = d.ReadString() }); err != nil {
+		return err
+	}
+	_ = addr
+	if gid != b.Net.Genesis.ID() {
+		return errors.New("peer has another genesis")
+	}
+	if err := writeV1(b.conn, func(e *types.Encoder) { e.WriteString("accept") }); err != nil {
+		return err
+	}
+	// writeHeader
+	var accept string
+	if err := writeV1(b.conn, func(e *types.Encoder) {
+		b.Net.Genesis.ID().EncodeTo(e)
+		e.Write(b.UID[:])
+		e.WriteString(ourAddr)
+	}); err != nil {
+		return err
+	} else if err := readV1(b.conn, 128, func(d *types.Decoder) { accept = d.ReadString() }); err != nil {
+		return err
+	} else if accept != "accept" {
+		return fmt.Errorf("peer rejected our header: %q", accept)
+	}
+	m, err := mux.AcceptAnonymous(b.conn)
+	if err != nil {
+		return err
+	}
+	b.mx = m
+	return nil
+}
